@@ -71,3 +71,80 @@ def replay_mci(task, failure):
     common = _members(*a, bits) & _members(*b, bits)
     want = min(common) if common else None
     return {"reproduced": got != want, "text": f"_minimal_common_integer_splitted = {got}, brute force {want}"}
+
+
+def _ref_mci(a, b):
+    """least common member of two non-wrapping intervals (lb, ub, st) of any width, exactly: scan the residues of the smaller stride
+    cycle (at most lcm/st_a <= st_b steps are needed; bounded by `limit`)"""
+    (la, ua, sa), (lb_, ub_, sb) = a, b
+    if sa == 0:
+        return la if (lb_ <= la <= ub_ and (sb == 0 and la == lb_ or sb and (la - lb_) % sb == 0)) else None
+    if sb == 0:
+        return _ref_mci(b, a)
+    lo = max(la, lb_)
+    # first member of a that is >= lo
+    v = la + ((lo - la + sa - 1) // sa) * sa
+    for _ in range(sb + 1):
+        if v > ua or v > ub_:
+            return None
+        if (v - lb_) % sb == 0:
+            return v
+        v += sa
+    return None
+
+
+def mci_wide(seed=0, n=4000, budget_s=60, known_labels=()):
+    """the same contract at 16..64 bits, where no enumeration of members is possible: directed random intervals whose bounds sit near
+    2^w (where the quotients of the Diophantine solver exceed 2^53) and small coprime / non-coprime strides, reference = exact scan"""
+    import random
+    from claripy.backends.backend_vsa import StridedInterval as SI
+    rnd = random.Random(seed * 7919 + 13)
+    t0 = time.time()
+    evals = distinct = 0
+    failures, samples = [], []
+    small = [1, 2, 3, 4, 5, 6, 7, 8, 12, 16, 24, 31, 32, 100, 255, 256, 1000]
+    for i in range(n):
+        if time.time() - t0 > budget_s:
+            break
+        w = rnd.choice([16, 32, 48, 63, 64])
+        M = 1 << w
+
+        def one():
+            st = rnd.choice(small)
+            hi = rnd.random() < 0.7
+            ub = M - 1 - rnd.randrange(0, 64) if hi else rnd.randrange(M)
+            span = rnd.choice([rnd.randrange(0, 4096), rnd.randrange(0, M)]) if rnd.random() < 0.5 else ub
+            lb = max(0, ub - (span // st) * st)
+            if (ub - lb) % st:
+                lb = ub - ((ub - lb) // st) * st
+            return (lb, ub, st if lb != ub else 0)
+        a, b = one(), one()
+        want = _ref_mci(a, b)
+        sa = SI(bits=w, stride=a[2], lower_bound=a[0], upper_bound=a[1])
+        sb = SI(bits=w, stride=b[2], lower_bound=b[0], upper_bound=b[1])
+        try:
+            got = SI._minimal_common_integer_splitted(sa, sb)
+        except Exception as e:  # noqa
+            got = f"{type(e).__name__}: {e}"
+        evals += 1
+        if a[2] and b[2] and want is not None:
+            distinct += 1
+            if len(samples) < 2:
+                samples.append({"a": a, "b": b, "w": w, "result": got})
+        if got != want:
+            failures.append({"label": "mci_splitted/contract-wide", "kind": "bounded", "witness": {"w": w, "a": a, "b": b, "got": str(got), "want": want},
+                             "detail": f"_minimal_common_integer_splitted({sa}, {sb}) = {got}, least common member is {want}"})
+    real = [f for f in failures if f["label"] not in known_labels]
+    return {"status": "violated" if real else "ok", "evaluations": evals, "distinct_nontrivial": distinct, "failures": real[:5],
+            "n_failures": len(real), "samples": samples, "reason": "", "exhaustive": False,
+            "rule": f"{evals} directed random pairs of non-wrapping intervals at 16..64 bits with bounds near 2^w; nontrivial = both non-constant with a common member"}
+
+
+def replay_mci_wide(task, failure):
+    from claripy.backends.backend_vsa import StridedInterval as SI
+    w = failure["witness"]
+    a, b, bits = tuple(w["a"]), tuple(w["b"]), w["w"]
+    got = SI._minimal_common_integer_splitted(SI(bits=bits, stride=a[2], lower_bound=a[0], upper_bound=a[1]),
+                                             SI(bits=bits, stride=b[2], lower_bound=b[0], upper_bound=b[1]))
+    want = _ref_mci(a, b)
+    return {"reproduced": got != want, "text": f"_minimal_common_integer_splitted at {bits} bits = {got}, exact scan {want}"}
